@@ -203,6 +203,9 @@ fn wom(tag: &str) -> Vec<WildcardOneOrMore<String>> {
         WildcardOneOrMore::More(vec![format!("{tag}:x"), format!("{tag}:*")]),
         // a one-element list holding the wildcard text stays a list
         WildcardOneOrMore::More(vec!["*".to_owned()]),
+        // a single value / a list with characters that JSON writes as escapes (a parser cannot lend such a string out of its input)
+        WildcardOneOrMore::One(format!("{tag}:q\"b\\s/n\nu\u{1}é")),
+        WildcardOneOrMore::More(vec![format!("{tag}:q\"b\\s/n\nu\u{1}é")]),
     ]
 }
 
@@ -332,6 +335,21 @@ fn policy_roundtrip(a: &mut Acc, order: u64, id: String, p: &Policy) {
             return;
         }
     };
+    // every way in: a decoder that borrows from text, from bytes, one that reads a stream, one that owns a value tree - and the
+    // same document with its strings spelled with escapes a hand-written policy may use (\/ for /, \u0073 for s)
+    let respelled = text.replace('/', "\\/").replace(":s", ":\\u0073");
+    for (way, res) in [
+        ("from_slice", serde_json::from_slice::<Policy>(text.as_bytes()).map_err(|e| e.to_string())),
+        ("from_reader", serde_json::from_reader::<_, Policy>(std::io::Cursor::new(text.as_bytes())).map_err(|e| e.to_string())),
+        ("from_value", serde_json::from_str::<Value>(&text).and_then(serde_json::from_value::<Policy>).map_err(|e| e.to_string())),
+        ("from_str(escaped spelling)", serde_json::from_str::<Policy>(&respelled).map_err(|e| e.to_string())),
+    ] {
+        match res {
+            Ok(q) if &q == p => {}
+            Ok(q) => a.fail("C20/policy/value-changed-by-roundtrip", order, id.clone(), format!("decoded through {way}: value differs; json={text}"), json!({"way": way, "after": format!("{q:?}")})),
+            Err(e) => a.fail("C20/policy/own-encoding-refused", order, id.clone(), format!("decoded through {way}: {e}; json={}", if way.contains("escaped") { &respelled } else { &text }), json!({"way": way})),
+        }
+    }
     match serde_json::from_str::<Policy>(&text) {
         Ok(q) => {
             if &q == p {
